@@ -38,4 +38,45 @@ def typesTable (guarded : Bool) : List Obj â†’ List (Str Ã— Nat) â†’ List (Str Ã
 def lookupType (guarded : Bool) (defs : List Obj) (name : Str) : Option Nat :=
   (typesTable guarded defs []).lookup name
 
+/-- the same for constants and for package-level functions (methods are filed separately) -/
+def tableOf (guarded : Bool) (kind : ObjKind) : List Obj â†’ List (Str Ã— Nat) â†’ List (Str Ã— Nat)
+  | [], m => m
+  | o :: os, m =>
+    if o.kind = kind && !o.isMethod && (!guarded || o.scope = .pkg) then tableOf guarded kind os (assign m o.name o.id)
+    else tableOf guarded kind os m
+
 end Gengo.Loader
+
+namespace Gengo.Methods
+
+structure Method where
+  name : List Char
+  recvOrigin : Nat          -- identity of the declared type the method belongs to
+  recvObject : Nat          -- identity of the receiver's *types.Named as written (= origin unless generic)
+  ptrRecv : Bool
+deriving DecidableEq
+
+def methodsOf (byOrigin : Bool) (ms : List Method) (t : Nat) (canPtr : Bool) : List Method :=
+  ms.filter fun m => (if byOrigin then m.recvOrigin else m.recvObject) == t && (canPtr || !m.ptrRecv)
+
+end Gengo.Methods
+
+namespace Gengo.Locate
+
+abbrev Seg := List Char
+abbrev Path := List Seg
+
+structure P where
+  pkgPath : Path
+  mod : Option (Path Ã— Path)      -- module path, module dir
+
+def sourceDir (p : P) : Option Path :=
+  match p.mod with
+  | none => none                                   -- `""`: never equal to a `filepath.Dir` result
+  | some (mp, md) => if p.pkgPath = mp then some md else some (md ++ p.pkgPath.drop mp.length)
+
+/-- `LocateInPackage` over the universe in whatever order the map is ranged -/
+def locate (pkgs : List P) (dir : Path) : Option P := pkgs.find? fun p => sourceDir p == some dir
+
+end Gengo.Locate
+
